@@ -185,6 +185,9 @@ class DimwiseSim:
         install_observers()
         a, b = np.array(c["a"], dtype=float), np.array(c["b"], dtype=float)
         self.a, self.b = a, b
+        # configuration class carried by the signature of any exception the library raises in this run
+        self.ctx.exc_sig = {"strategy": "dimension_wise", "version": c["version"], "lmin_equals_lmax": c["lmin"] == c["lmax"],
+                            "estimator": c.get("estimator", "keyed")}
         if c.get("clock_jumps"):
             r = stream(self.rk, "faults")
             seams.CLOCK.jumps = {r.randrange(1, 40): r.choice([0.5, 60.0, 86400.0]) for _ in range(3)}
